@@ -465,9 +465,9 @@ PROPS['C14'] = dict(level='proof', units=['registry', 'flag', 'pipe', 'backend_c
 
 # --------------------------------------------------------------------------------------------
 # Engine V on the real mutators (extracted mechanically on every run, see lib/verus_registry.py): unbounded
-UNITS['registry_verus'] = dict(name='registry_verus', engine='verus', module='verus_registry', entry='run_registry', min_verified=11, rlimit=30,
+UNITS['registry_verus'] = dict(name='registry_verus', engine='verus', module='verus_registry', entry='run_registry', min_verified=12, rlimit=30,
     obligations=['C05.V-UNREG-IFF-LIVE', 'C05.V-PUBLISH-IFF-CHANGED', 'C05.V-REMOVE-ONLY-IT', 'C05.V-UNREG-SIGNAL', 'C05.V-REG-APPEND',
-                 'C05.V-ID-FRESH', 'C05.V-INV', 'C05.V-NO-PANIC', 'C02.V-ID-MONO', 'C04.V-PREV-PUBLISHED', 'C14.V-ERR-NO-PUBLISH', 'C05.V-HISTORY'])
+                 'C05.V-ID-FRESH', 'C05.V-INV', 'C05.V-NO-PANIC', 'C02.V-ID-MONO', 'C04.V-PREV-PUBLISHED', 'C14.V-ERR-NO-PUBLISH', 'C05.V-HISTORY', 'C05.V-INV-BASE'])
 FV = 'registry lib.rs (extracted text, Verus, every registry state satisfying Inv - unbounded): '
 obl('C05.V-UNREG-IFF-LIVE', FV + 'unregister', 'result == (id.action is in the map of id.signal in the snapshot read under the writer mutex)')
 obl('C05.V-PUBLISH-IFF-CHANGED', FV + 'unregister, unregister_signal, register_unchecked_impl', 'the guard publishes exactly once iff the view changes (never before, never twice; zero publications when the result is false)', also=['C01', 'C02'])
@@ -480,6 +480,7 @@ obl('C05.V-NO-PANIC', FV + 'all three mutators', 'no verifier-generated check on
 obl('C02.V-ID-MONO', FV + 'register_unchecked_impl', 'the new id is greater than every id already registered for that signal (BTreeMap iterates in key order => it runs last)', also=['C05'])
 obl('C04.V-PREV-PUBLISHED', FV + 'register_unchecked_impl', 'occupied: the slot\'s prev is unchanged; vacant: the published slot is the one Slot::new returned for this signal')
 obl('C14.V-ERR-NO-PUBLISH', FV + 'register_unchecked_impl', 'at both early returns (`?` on Prev::detect / Slot::new) nothing has been published on `data`; the function has no other early return (syntactic side condition)')
+obl('C05.V-INV-BASE', FV + 'GlobalData::ensure (the SignalData literal handed to HalfLock::new, extracted)', 'the first published snapshot is the empty registry and satisfies Inv (base case of the induction)')
 obl('C05.V-HISTORY', 'lemmas over the postconditions above (verus/registry/lemmas.rs)', 'for every history of mutator calls of any length: Inv everywhere, next_id monotone, two successful registrations never return the same id, a new id was live in no earlier state, an id removed by unregister stays dead and every later unregister of it returns false and changes nothing (induction, machine-checked)')
 
 FHI = 'registry lib.rs (public mutators + handler, history): '
@@ -530,7 +531,7 @@ PROPS['C06']['trusted'] = L('A1', 'A7', 'A10') + ['linearizability: the lemma L-
 for _p in ('C05', 'C02', 'C04', 'C14', 'C01'):
     PROPS[_p]['units'] = PROPS[_p]['units'] + ['registry_verus']
 _VT = ['Verus unit registry_verus: assumed contracts (verus/registry/prelude_a.rs, prelude_b.rs): WriteGuard::{deref,store} and HalfLock::write (real bodies proved against them by Kani: C01.S-*, C01.WG-LOAD), HashMap::get_mut (std), derived Clone of SignalData = same view, derived Ord of ActionId = numeric order, Slot::new / Prev::detect result shape (proved by Kani c05_slot_new), GlobalData::ensure; opaque stand-ins for `dyn Fn` actions and Arc',
-       'Verus unit: Inv is ASSUMED for the snapshot read under the writer mutex and PROVED for every snapshot published (induction over publications; base case - empty map, next_id 1 in GlobalData::ensure - by reading); A9 assumed as `next_id < u128::MAX`',
+       'Verus unit: Inv is ASSUMED for the snapshot read under the writer mutex and PROVED for every snapshot published (induction over publications; base case - the literal in GlobalData::ensure - proved: C05.V-INV-BASE); A9 assumed as `next_id < u128::MAX`',
        'Verus unit: machine integers are mathematical integers with explicit range obligations (overflow checks generated by Verus)']
 for _p in ('C05', 'C02', 'C04', 'C14'):
     PROPS[_p]['trusted'] = PROPS[_p]['trusted'] + _VT
